@@ -293,6 +293,36 @@ class ModelMutator(BaseAppStateMutator):
             'sql': sql,
         })
 
+    def rename_table(self, mutation, model, old_db_table, new_db_table):
+        """Add an operation for renaming the model's table.
+
+        The SQL is generated along with that of the other queued operations,
+        in order, so that the database state seen by each of them is the
+        one left behind by the operations before it.
+
+        Args:
+            mutation (django_evolution.mutations.BaseModelMutation):
+                The mutation renaming the table.
+
+            model (django_evolution.mock_models.MockModel):
+                The model as it will be after the rename.
+
+            old_db_table (unicode):
+                The old table name.
+
+            new_db_table (unicode):
+                The new table name.
+        """
+        assert not self.finalized
+
+        self._ops.append({
+            'type': 'rename_table',
+            'mutation': mutation,
+            'model': model,
+            'old_db_table': old_db_table,
+            'new_db_table': new_db_table,
+        })
+
     def run_mutation(self, mutation):
         """Run the specified mutation.
 
